@@ -100,6 +100,15 @@ def run_shard(sh):
     lang = sh['lang']
     n = 0
     for p in sh['patterns']:
+        if sh['mode'] == 'mixed':
+            # patterns of all lengths in lexicographic order, so a pattern and its prefixes are compiled in the same query
+            full = len(p) <= sh['full_upto']
+            alpha = text_alpha_for(p, 'full' if full else 'reduced')
+            walk(p, alpha, sh['tmax_full'] if full else sh['tmax'], rows, exps, res)
+            n += 1
+            if len(rows) >= BATCH:
+                flush(rows, exps, res, lang, 'like' if n % 2 else 'LIKE')
+            continue
         alpha = text_alpha_for(p, sh['mode'])
         walk(p, alpha, sh['tmax'], rows, exps, res)
         n += 1
@@ -113,21 +122,23 @@ def run_shard(sh):
 def build(tier):
     plans = []
     if tier == 'quick':
-        plans.append(('py', 'full', list(patterns(SIGMA, 3)), 3))
-        plans.append(('py', 'reduced', list(patterns(SIGMA, 4, 4)), 4))
+        plans.append(('py', 'mixed', sorted(patterns(SIGMA, 4)), 4, {'full_upto': 3, 'tmax_full': 3}))
         plans.append(('js', 'full', list(patterns(SIGMA, 2)), 3))
         plans.append(('js', 'reduced', list(patterns(SIGMA, 3, 3)), 3))
     else:
-        plans.append(('py', 'full', list(patterns(SIGMA, 3)), 4))
-        plans.append(('py', 'reduced', list(patterns(SIGMA, 4, 4)), 5))
+        plans.append(('py', 'mixed', sorted(patterns(SIGMA, 4)), 5, {'full_upto': 3, 'tmax_full': 4}))
         plans.append(('py', 'reduced', list(patterns(['a', '%', '_', '.', '\\', '['], 5, 5)), 5))
         plans.append(('js', 'full', list(patterns(SIGMA, 3)), 3))
         plans.append(('js', 'reduced', list(patterns(SIGMA, 4, 4)), 4))
     shards = []
-    for lang, mode, pats, tmax in plans:
+    for plan in plans:
+        lang, mode, pats, tmax = plan[:4]
         per = max(1, len(pats) // 48)
         for i in range(0, len(pats), per):
-            shards.append({'lang': lang, 'mode': mode, 'patterns': pats[i:i + per], 'tmax': tmax})
+            sh = {'lang': lang, 'mode': mode, 'patterns': pats[i:i + per], 'tmax': tmax}
+            if len(plan) > 4:
+                sh.update(plan[4])
+            shards.append(sh)
     return shards, plans
 
 
@@ -144,7 +155,7 @@ def main(tier, seed):
              'automaton state stepped along each edge; non-trivial = pattern contains a regular-expression metacharacter',
         assumptions=['single-line texts only (the quantifier says so)', 'for the reduced slices: the reference semantics cannot distinguish characters absent from the pattern; '
                      'one absent metacharacter is kept so that an implementation that does distinguish it is still seen'],
-        extra={'plans': [{'lang': l, 'mode': m, 'patterns': len(p), 'text_maxlen': t} for l, m, p, t in plans]},
+        extra={'plans': [{'lang': pl[0], 'mode': pl[1], 'patterns': len(pl[2]), 'text_maxlen': pl[3]} for pl in plans]},
         min_features={'match': 10000, 'nomatch': 10000})
 
 
